@@ -472,6 +472,18 @@ ref_len = z3.Function('ref_len', I, I)                       # length of the lis
 ref_arr = z3.Function('ref_arr', I, sym.ARR_IV)             # its elements
 
 
+def _native_entry(ip, d, k):
+    """(found, value) when the dict is a python dict and the key concrete"""
+    d = ip.resolve(d)
+    k = ip.resolve(k)
+    if isinstance(d, dict) and is_concrete(k):
+        return True, (d[k] if k in d else _ABSENT)
+    return False, None
+
+
+_ABSENT = object()
+
+
 def _entry(ip, d, k):
     d = _as_hdict(ip, d)
     sp, ke = models.key_space(ip, k)
@@ -480,30 +492,45 @@ def _entry(ip, d, k):
 
 @_always
 def m_is_bytes_or_absent(ip, d, k):
+    found, v = _native_entry(ip, d, k)
+    if found:
+        return v is _ABSENT or (is_bytes(v))
     v = _entry(ip, d, k)
     return z3.Or(VAL.is_absent(v), VAL.is_vbytes(v))
 
 
 @_always
 def m_is_bool_or_absent(ip, d, k):
+    found, v = _native_entry(ip, d, k)
+    if found:
+        return v is _ABSENT or (isinstance(v, bool) or sym.is_sym_bool(v))
     v = _entry(ip, d, k)
     return z3.Or(VAL.is_absent(v), VAL.is_vbool(v))
 
 
 @_always
 def m_is_int_or_absent(ip, d, k):
+    found, v = _native_entry(ip, d, k)
+    if found:
+        return v is _ABSENT or ((isinstance(v, int) and not isinstance(v, bool)) or sym.is_sym_int(v))
     v = _entry(ip, d, k)
     return z3.Or(VAL.is_absent(v), VAL.is_vint(v))
 
 
 @_always
 def m_is_list_or_absent(ip, d, k):
+    found, v = _native_entry(ip, d, k)
+    if found:
+        return v is _ABSENT or (isinstance(v, (list, ZList)))
     v = _entry(ip, d, k)
     return z3.Or(VAL.is_absent(v), VAL.is_vref(v))
 
 
 @_always
 def m_list_len_at(ip, d, k):
+    found, v = _native_entry(ip, d, k)
+    if found:
+        return 0 if v is _ABSENT else models.m_len(ip, v)
     v = _entry(ip, d, k)
     return z3.If(VAL.is_vref(v), ref_len(VAL.r(v)), 0)
 
@@ -567,7 +594,21 @@ def m_strint_part(ip, d):
     return r
 
 
+@_always
+def m_dict_same_except(ip, d0, d1, key):
+    d0, d1 = _as_hdict(ip, d0), _as_hdict(ip, d1)
+    sp, ke = models.key_space(ip, key)
+    cs = []
+    for s_, srt in HDict.SPACES.items():
+        if s_ == sp:
+            cs.append(z3.Store(d0.maps[s_], ke, VAL.absent) == z3.Store(d1.maps[s_], ke, VAL.absent))
+        else:
+            cs.append(d0.maps[s_] == d1.maps[s_])
+    return z3.And(*cs)
+
+
 def install2():
+    models.register_model(vocab.dict_same_except, m_dict_same_except)
     models.register_model(vocab.strint_part, m_strint_part)
     models.register_model(vocab.concrete_len, m_concrete_len)
     models.register_model(vocab.zeros, m_zeros)
